@@ -42,7 +42,12 @@ _S = {}
 
 
 def state():
+    # a fresh pair of repls every 400 sequences: closed connections leave subscriptions behind in the long-lived server
+    # and client, which slows a long campaign down quadratically
+    if 'pair' in _S and _S.get('uses', 0) >= 400:
+        _S.pop('pair').close()
     if 'pair' not in _S:
+        _S['uses'] = 0
         from .netharness import Pair
         from klongpy import KlongInterpreter
         _S['pair'] = Pair()
@@ -160,6 +165,7 @@ def reset(pair, twin):
 
 def run_sequence(ops, stats, report):
     pair, twin = state()
+    _S['uses'] = _S.get('uses', 0) + 1
     reset(pair, twin)
     flex = 1
     for i, op in enumerate(ops):
@@ -465,7 +471,7 @@ def shard(kind, a, b):
 
 def check(run):
     quick = run.tier == 'quick'
-    jobs = [('live', run.seed * 1000 + i, 300 if quick else 5000) for i in range(8)]
+    jobs = [('live', run.seed * 1000 + i, 300 if quick else 1500) for i in range(8)]
     jobs += [('exh', i, 4) for i in range(4)]
     jobs += [('gen', run.seed * 1000 + 100 + i, 1000 if quick else 10000) for i in range(4)]
     run.absorb(core.pool_map('vk.c13_ipc', 'shard', jobs))
